@@ -51,8 +51,41 @@ PKGS="$($GO list "${PATTERNS[@]}" 2>/dev/null | sort -u)"
 : >"$OUT"
 : >"$LOG"
 # one package at a time: all tests share the one database
+# A panicking test aborts the rest of its package; such a package is re-run
+# with the panicking test skipped (it stays recorded as failed) so that the
+# remaining tests are still exercised.
 for pkg in $PKGS; do
-  "$GO" test -vet=off -count=1 -p 1 -json "$pkg" >>"$OUT" 2>>"$LOG"
+  skip=""
+  for _ in 1 2 3 4 5 6; do
+    TMP="$(mktemp)"
+    if [ -n "$skip" ]; then
+      "$GO" test -vet=off -count=1 -p 1 -json -skip "^(${skip})\$" "$pkg" >"$TMP" 2>>"$LOG"
+    else
+      "$GO" test -vet=off -count=1 -p 1 -json "$pkg" >"$TMP" 2>>"$LOG"
+    fi
+    cat "$TMP" >>"$OUT"
+    panicked="$(python3 - "$TMP" <<'PYEOF'
+import json, sys
+out, failed = {}, []
+for line in open(sys.argv[1]):
+    try:
+        ev = json.loads(line)
+    except ValueError:
+        continue
+    t = ev.get("Test")
+    if not t or "/" in t:
+        continue
+    if ev.get("Action") == "output":
+        out[t] = out.get(t, "") + ev.get("Output", "")
+    elif ev.get("Action") == "fail":
+        failed.append(t)
+print("|".join(t for t in failed if "panic:" in out.get(t, "") or "[recovered" in out.get(t, "")))
+PYEOF
+)"
+    rm -f "$TMP"
+    [ -n "$panicked" ] || break
+    if [ -n "$skip" ]; then skip="$skip|$panicked"; else skip="$panicked"; fi
+  done
 done
 
 python3 - "$OUT" <<'EOF'
